@@ -12,9 +12,12 @@
                     recomputed cell is recorded and when a recorded change becomes a stored action
      observe        what column.get_cell_value lets a dependent formula see of a raw cell
 
-   A RaisedException carries, besides the fields it encodes (Values.PErr), the attribute .error (the exception
-   object, or None when it was built by decode_args).  A cell is therefore a pair (raw value, class name of
-   .error); the second component is None when .error is None (and for values that are not errors).
+   A RaisedException carries, besides the fields it encodes (Values.PErr), the attribute .error: the exception
+   object (since commit 2fb0387 decode_args puts a stand-in exception of a class with the saved name there; it
+   leaves None only when the saved name is not a str).  A cell is therefore a pair (raw value, description of
+   .error); the description is the class name and str() of the innermost exception (CellError wrappers removed),
+   which is all a reader of the cell gets to see; str() is None where the model does not know it (an exception
+   raised inside decode_object).  The second component is None when .error is None and for non-errors.
 
    marshal.dumps / marshal.loads are C code: they are Section variables here; the only fact used about them
    (loads (dumps x) = x on marshalable data) is a hypothesis of the theorems and is monitored by the harness. *)
@@ -23,7 +26,8 @@ Import ListNotations.
 Require Import Grist.Lib.PyFloat Grist.Model.Values.
 Open Scope Z_scope.
 
-Definition cell := (value * option str)%type.
+Definition errdesc := (str * option str)%type.
+Definition cell := (value * option errdesc)%type.
 
 Section Reload.
 Variable orc : oracles.
@@ -141,13 +145,19 @@ Definition e_form_ok (fuel : nat) (enc : value) : bool :=
   | _ => false
   end.
 
-(* .error of decode_object(enc) when that is a RaisedException: None after decode_args, the exception caught
-   by decode_object otherwise (its class name is the _name of the result).
-   Repaired behaviour (notes/proposed_fixes/C07-decoded-error-stand-in.diff: decode_args keeps a stand-in exception
-   of a class with the saved name): replace `None` in the first branch below by `Some n`. *)
-Definition decoded_err (fuel : nat) (enc : value) : option str :=
+(* str(E(m)) for the stand-in E(m) built by decode_args from the saved message m (E() when m is None) *)
+Definition exc_text (m : value) : str :=
+  match m with
+  | PNone => []
+  | _ => or_default [] (py_str orc m)
+  end.
+
+(* .error of decode_object(enc) when that is a RaisedException: after decode_args a stand-in exception of a class
+   named like the saved name, carrying the saved message (None if the saved name is not a str); otherwise the
+   exception caught by decode_object (its class name is the _name of the result, its text is the library's). *)
+Definition decoded_err (fuel : nat) (enc : value) : option errdesc :=
   match decode_f orc fuel enc with
-  | PErr (PStr _ n) _ _ _ => if e_form_ok fuel enc then None else Some n
+  | PErr (PStr _ n) m _ _ => Some (n, if e_form_ok fuel enc then Some (exc_text m) else None)
   | _ => None
   end.
 
@@ -256,11 +266,14 @@ Definition flush_cell (fuel : nat) (chg : option (value * value)) : option value
    carries type(raw.error).__name__); otherwise the result (the value, the rich value made from it, or its
    AltText) is a function of the column and the raw object, so the raw object itself, with its exact type,
    bounds everything a formula can find out: truthiness, comparisons, attributes. *)
-Inductive obs := ORaise (cls : str) | OSee (raw : value).
+Inductive obs := ORaise (cls : str) (text : option str) | OSee (raw : value).
 
 Definition observe (c : cell) : obs :=
   match fst c with
-  | PErr _ _ _ _ => ORaise (match snd c with Some n => n | None => Str "NoneType" end)
+  | PErr _ _ _ _ => match snd c with
+                    | Some (n, t) => ORaise n t
+                    | None => ORaise (Str "NoneType") (Some (Str "None"))
+                    end
   | v => OSee v
   end.
 
@@ -282,7 +295,15 @@ Definition unmarshal_of (tbl : list (value * list Z)) (b : list Z) : value :=
 Definition opt_str_eqb (a b : option str) : bool :=
   match a, b with Some x, Some y => str_eqb x y | None, None => true | _, _ => false end.
 
-Definition cell_eqb (a b : cell) : bool := value_eqb (fst a) (fst b) && opt_str_eqb (snd a) (snd b).
+(* an unknown text (None) matches any text *)
+Definition errdesc_eqb (a b : option errdesc) : bool :=
+  match a, b with
+  | Some (n, t), Some (n', t') => str_eqb n n' && match t, t' with Some x, Some y => str_eqb x y | _, _ => true end
+  | None, None => true
+  | _, _ => false
+  end.
+
+Definition cell_eqb (a b : cell) : bool := value_eqb (fst a) (fst b) && errdesc_eqb (snd a) (snd b).
 
 Definition res_eqb {A} (eq : A -> A -> bool) (a b : result A) : bool :=
   match a, b with
@@ -293,7 +314,7 @@ Definition res_eqb {A} (eq : A -> A -> bool) (a b : result A) : bool :=
 
 Definition obs_eqb (a b : obs) : bool :=
   match a, b with
-  | ORaise x, ORaise y => str_eqb x y
+  | ORaise x t, ORaise y t' => errdesc_eqb (Some (x, t)) (Some (y, t'))
   | OSee x, OSee y => value_eqb x y
   | _, _ => false
   end.
